@@ -86,6 +86,33 @@ class Renamer(ast.NodeTransformer):
         return node
 
 
+class KwReverse(ast.NodeTransformer):
+    """keyword arguments of every call in reverse order (the `**mapping` entries keep their place at the end)"""
+
+    def visit_Call(self, node: ast.Call):
+        self.generic_visit(node)
+        named = [k for k in node.keywords if k.arg is not None]
+        star = [k for k in node.keywords if k.arg is None]
+        if len(named) > 1 and not star:
+            node.keywords = list(reversed(named))
+        return node
+
+
+class CmpSwap(ast.NodeTransformer):
+    """`a == b` -> `b == a`, `a != b` -> `b != a`, `a is b` -> `b is a` for single comparisons whose operands are names,
+    attributes, constants or subscripts of those (no calls: evaluation order is untouched)"""
+
+    @staticmethod
+    def _simple(e: ast.AST) -> bool:
+        return all(isinstance(x, (ast.Name, ast.Attribute, ast.Constant, ast.Subscript, ast.Load, ast.UnaryOp, ast.USub, ast.Slice)) for x in ast.walk(e))
+
+    def visit_Compare(self, node: ast.Compare):
+        self.generic_visit(node)
+        if len(node.ops) == 1 and isinstance(node.ops[0], (ast.Eq, ast.NotEq, ast.Is, ast.IsNot)) and self._simple(node.left) and self._simple(node.comparators[0]) and not (isinstance(node.comparators[0], ast.Constant) and node.comparators[0].value is None):
+            node.left, node.comparators = node.comparators[0], [node.left]
+        return node
+
+
 def make_twin(mode: str, src: pathlib.Path, dest: pathlib.Path) -> None:
     """copy src/xknx to dest/xknx, rewriting every module (mode: 'rename' | 'format')"""
     shutil.copytree(src / "xknx", dest / "xknx", ignore=shutil.ignore_patterns("__pycache__"))
@@ -93,6 +120,10 @@ def make_twin(mode: str, src: pathlib.Path, dest: pathlib.Path) -> None:
         t = ast.parse(p.read_text())
         if mode == "rename":
             t = Renamer().visit(t)
+        elif mode == "kwreverse":
+            t = KwReverse().visit(t)
+        elif mode == "cmpswap":
+            t = CmpSwap().visit(t)
         ast.fix_missing_locations(t)
         out = ast.unparse(t) + "\n"
         compile(out, str(p), "exec")
